@@ -21,6 +21,9 @@ for pid in sys.argv[1:]:
         "log": [l for l in log.splitlines() if l.strip()],
     }
     meta["check_verdict"] = {"command": f"./check {pid}", "exit": 1 if viol else 0, "violations": viol, "summary": summ}
+    note = f"/tmp/seednote_{pid}.txt"
+    if os.path.exists(note):
+        meta["history"] = open(note).read().strip()
     meta["apply"] = "git -C /repo apply /verif/seeded/%s/patch.diff ; undo: git -C /repo checkout -- ." % pid
     meta["demo"] = "copy demo_test.go into %s as zz_seed_demo_test.go and run go test -vet=off -run 'Demo|Seed|TestC[0-9]+' there" % meta.get("demo_package_dir", "?")
     json.dump(meta, open(f"{dst}/meta.json", "w"), indent=1)
